@@ -578,11 +578,11 @@ def census(ctx, A):
             if g.kinds <= {'err_prop'} and g.pred[0] == 'fails':
                 src = _head(g.pred[1])
                 ok = any(s in src for s in EXPECTED_PROP)
-                ctx.ob(['C03'], 'R-CENSUS', 'propagated|%s|%s' % (short(fn.id), src if ok else 'unexpected:' + src[:60]), ok,
+                ctx.ob(['C03', 'C10'], 'R-CENSUS', 'propagated|%s|%s' % (short(fn.id), src if ok else 'unexpected:' + src[:60]), ok,
                        'error propagated from %s' % src[:100] if ok else 'a new fallible step can reject a type description: %s' % src[:160], g.where())
                 continue
             tags = [t for t, m, _ in EXPECTED_OWN if m(g)]
-            ctx.ob(['C03'], 'R-CENSUS', 'own|%s|%s' % (short(fn.id), tags[0] if tags else 'unexpected:' + show(g.pred)[:60]), bool(tags),
+            ctx.ob(['C03', 'C10'], 'R-CENSUS', 'own|%s|%s' % (short(fn.id), tags[0] if tags else 'unexpected:' + show(g.pred)[:60]), bool(tags),
                    ('rejection implements: ' + [c for t, m, c in EXPECTED_OWN if t == tags[0]][0]) if tags else 'a rejection that no clause of the statement calls for (possible spurious rejection): %s' % show(g.pred)[:200],
                    g.where())
 
@@ -690,7 +690,7 @@ def type_size_rules(ctx):
                     ex = P.fns[cl[1]].exits()
                     ok = len(ex) == 1 and is_call(ex[0]['expr'], 'checked_mul')
                     det.append(show(ex[0]['expr']) if ex else '')
-            ctx.ob(['C02'], 'R-EXPR', 'Type::size|Array', ok, 'size of an array is element size × count: %s' % det, loc(f.span))
+            ctx.ob(['C02', 'C10'], 'R-EXPR', 'Type::size|Array', ok, 'size of an array is element size × count: %s' % det, loc(f.span))
         else:
             vals = [v for v in vals if not is_call(v, 'from_residual')]
             ok = len(vals) == 1 and find_calls(vals[0], 'Type::alignment') and not any(isinstance(x, tuple) and x[0] == 'bin' for x in walk(vals[0]))
